@@ -808,6 +808,28 @@ def run_unit(u, scratch, repo=None):
                 best = (s, e, n)
         return best[2] if best else "?"
 
+    clean_all = _strip_tokens(text)
+    impl_rs = []
+    for mi in re.finditer(r"^[ \t]*impl\b[^{;]*\{", clean_all, re.M):
+        try:
+            end = _match_brace(clean_all, mi.end() - 1)
+        except Undecided:
+            continue
+        hdr = text[mi.start():mi.end() - 1]
+        t = hdr.split(" for ")[-1] if " for " in hdr else re.sub(r"^\s*impl\s*(<[^>]*>)?\s*", "", hdr)
+        mt = re.match(r"\s*([A-Za-z_]\w*)", t)
+        if mt:
+            impl_rs.append((clean_all.count("\n", 0, mi.start()) + 1, clean_all.count("\n", 0, end) + 1, mt.group(1)))
+
+    def qualified(line):
+        """`Type::fn` for methods (unique substring for --verify-function), plain name otherwise"""
+        n = enclosing(line)
+        best = None
+        for s0, e0, ty in impl_rs:
+            if s0 <= line <= e0 and (best is None or s0 >= best[0]):
+                best = (s0, e0, ty)
+        return "%s::%s" % (best[2], n) if best and n != "?" else n
+
     def src_of(line):
         for s, e, meta in linemap:
             if s <= line <= e:
@@ -837,9 +859,9 @@ def run_unit(u, scratch, repo=None):
     # A function that exhausts the default resource limit is re-run alone with a 30x limit: a false obligation usually makes
     # Z3 search until the limit, and the larger budget turns that into a definite "postcondition not satisfied" (or a pass).
     retried = {}
-    for fn_name in sorted({e["fn"] for e in errors if "Resource limit" in e["msg"] and e["fn"] != "?"}):
+    for fn_name, fn_sel in sorted({(e["fn"], qualified(e["gen_line"])) for e in errors if "Resource limit" in e["msg"] and e["fn"] != "?"}):
         cmd2 = ["verus", gen, "--output-json", "--multiple-errors", "30", "--rlimit", "300", "--verify-root",
-                "--verify-function", fn_name]
+                "--verify-function", fn_sel]
         try:
             p2 = subprocess.run(cmd2, cwd=scratch, capture_output=True, text=True, timeout=900)
         except subprocess.TimeoutExpired:
